@@ -260,6 +260,10 @@ def run(ctx):
             ctx.ok("R17.4", f, "prefix-idiom", r[0], f)
         elif len(r) == 1 and r[0] in wrong:
             ctx.bad("R17.4", f, "prefix-idiom", "starts_with is %s: true for an occurrence anywhere, not only at position 0" % r[0], f)
+        elif len(r) == 1 and re.fullmatch(r"\(%s\.r?find\(%s, (.+)\) == 0\)" % (re.escape(a), re.escape(b)), r[0]):
+            # the search is anchored by its position argument: only the constant 0 makes `== 0` mean "is a prefix"
+            m = re.fullmatch(r"\(%s\.(r?find)\(%s, (.+)\) == 0\)" % (re.escape(a), re.escape(b)), r[0])
+            ctx.bad("R17.4", f, "prefix-idiom", "starts_with is %s: %s" % (r[0], "rfind reports the LAST occurrence starting at or before `%s`, so a prefix that occurs again up to there is refused" % m.group(2) if m.group(1) == "rfind" else "find from position `%s` can only answer 0 when that position is 0" % m.group(2)), f)
         else:
             # early answers in front of one core idiom: each constant return must be right for every input it covers
             rets = [(bid, e, ir.unwrap(e["expr"].get("e"))) for bid, _, e in f.roots() if e["expr"].get("k") == "return"]
